@@ -4,7 +4,9 @@ package pseudonymization
 
 import (
 	"github.com/cossacklabs/acra/pseudonymization/common"
+	"github.com/cossacklabs/acra/pseudonymization/storage"
 	"github.com/cossacklabs/acra/zz_verif/verif"
+	"github.com/cossacklabs/acra/zz_verif/vks"
 )
 
 func verifInCharset(b byte) bool {
@@ -190,4 +192,58 @@ func VerifC10_ConsistentTokenTypes() {
 		return
 	}
 	verif.Assert(!verif.DeepEqual(t2, t1), "different-values-different-tokens")
+}
+
+// VerifC10_EncryptedTokenStoreAfterRotation: tokens kept in the encrypting token store survive a rotation of the
+// client's storage key: the owner still gets the original for an old token, the same value still maps to the same
+// token, and another client still gets nothing but the token.
+func VerifC10_EncryptedTokenStoreAfterRotation() {
+	ks := vks.New()
+	kOld := verif.Bytes("kOld", 32)
+	kNew := verif.Bytes("kNew", 32)
+	kB := verif.Bytes("kB", 32)
+	verif.Assume(!verif.Eq(kOld, kNew) && !verif.Eq(kOld, kB) && !verif.Eq(kNew, kB))
+	ks.AddSym("A", kOld)
+	ks.AddSym("B", kB)
+	mem, err := storage.NewMemoryTokenStorage()
+	if err != nil {
+		panic("storage")
+	}
+	enc, err := storage.NewSCellEncryptor(ks)
+	if err != nil {
+		panic("encryptor")
+	}
+	p, err := NewPseudoanonymizer(storage.WrapStorageWithEncryption(mem, enc))
+	if err != nil {
+		panic("pseudoanonymizer")
+	}
+	p.(*pseudoanonymizer).dataGenerationLoopLimit = 2
+	ctxA := common.TokenContext{ClientID: []byte("A")}
+	ctxB := common.TokenContext{ClientID: []byte("B")}
+	v := verif.Bytes("v", 2)
+	t1, err := p.AnonymizeConsistently(append([]byte{}, v...), ctxA, common.TokenType_Bytes)
+	verif.Assert(err == nil, "tokenize")
+	if err != nil {
+		return
+	}
+	tok := t1.([]byte)
+	if verif.Choose("rotate", 0, 1) == 1 {
+		// rotation: the new key becomes current, the old one stays in the history
+		ks.Sym["A"] = [][]byte{append([]byte{}, kNew...), append([]byte{}, kOld...)}
+	}
+	back, err := p.Deanonymize(append([]byte{}, tok...), ctxA, common.TokenType_Bytes)
+	verif.Reach("detokenized")
+	verif.Assert(err == nil, "detokenize-owner")
+	if err == nil {
+		verif.Assert(verif.Eq(back.([]byte), v), "owner-gets-original-after-rotation")
+	}
+	t2, err := p.AnonymizeConsistently(append([]byte{}, v...), ctxA, common.TokenType_Bytes)
+	verif.Assert(err == nil, "tokenize-again")
+	if err == nil {
+		verif.Assert(verif.Eq(t2.([]byte), tok), "same-value-same-token-after-rotation")
+	}
+	other, err := p.Deanonymize(append([]byte{}, tok...), ctxB, common.TokenType_Bytes)
+	if err == nil {
+		verif.Assert(verif.Eq(other.([]byte), tok), "other-client-gets-token-itself")
+	}
 }
